@@ -61,6 +61,36 @@ MUTATIONS = [
      "if last_updated_at == Some(zalsa.current_revision()) {", "if last_updated_at != Some(zalsa.current_revision()) {"),
     ('structs-keep-old-durability', 'Structs', 'src/tracked_struct.rs',
      "*durability = current_deps.durability;", "*durability = std::cmp::max(*durability, current_deps.durability);"),
+    # the claim protocol (two independently seeded edits changed the `Running` arm of
+    # maybe_changed_after_cold::inner into "after waking, answer from whatever memo is in the table")
+    ('mca-wake-answers-from-final-memo', 'Verify', 'src/function/maybe_changed_after.rs',
+     "                    let _ = blocked_on.block_on(zalsa);\n                    return ColdResult::Retry;",
+     "                    let _ = blocked_on.block_on(zalsa);\n"
+     "                    if let Some(memo) = memo_slot.get_erased() {\n"
+     "                        if !memo.header().may_be_provisional() {\n"
+     "                            return ColdResult::Verified(VerifyResult::changed_if(\n"
+     "                                memo.header().revisions.changed_at > revision,\n"
+     "                            ));\n"
+     "                        }\n"
+     "                    }\n"
+     "                    return ColdResult::Retry;"),
+    ('mca-wake-answers-from-any-memo', 'Verify', 'src/function/maybe_changed_after.rs',
+     "                    let _ = blocked_on.block_on(zalsa);\n                    return ColdResult::Retry;",
+     "                    let _ = blocked_on.block_on(zalsa);\n"
+     "                    if let Some(memo) = memo_slot.get_erased() {\n"
+     "                        return ColdResult::Verified(VerifyResult::changed_if(\n"
+     "                            memo.header().revisions.changed_at > revision,\n"
+     "                        ));\n"
+     "                    }\n"
+     "                    return ColdResult::Retry;"),
+    ('mca-retry-answers-unchanged', 'Verify', 'src/function/maybe_changed_after.rs',
+     "ColdResult::Retry => None,", "ColdResult::Retry => Some(VerifyResult::unchanged()),"),
+    ('fetch-lookup-before-claim', 'Verify', 'src/function/fetch.rs',
+     "        let database_key_index = self.database_key_index(id);\n        // Try to claim this query: if someone else has claimed it already, go back and start again.\n",
+     "        let database_key_index = self.database_key_index(id);\n        let opt_old_memo = self.get_memo_from_table_for(zalsa, id, memo_ingredient_index);\n"),
+    ('fetch-wake-returns-table-memo', 'Verify', 'src/function/fetch.rs',
+     "                let _ = blocked_on.block_on(zalsa);\n                return None;",
+     "                let _ = blocked_on.block_on(zalsa);\n                return self.get_memo_from_table_for(zalsa, id, memo_ingredient_index);"),
 ]
 
 
@@ -150,6 +180,7 @@ def main():
         if args and mid not in args:
             continue
         work = os.path.join(SCRATCH, mid)
+        shutil.rmtree(work, ignore_errors=True)
         head_sources(os.path.join(work, 'repo'))
         p = os.path.join(work, 'repo', path)
         s = open(p).read()
